@@ -35,7 +35,7 @@ type Req struct {
 	Shape int `json:"shape,omitempty"`
 }
 
-const nShapes = 9
+const nShapes = 10
 
 func (q Req) String() string {
 	var sb strings.Builder
@@ -152,6 +152,7 @@ func (q Req) shape(r *http.Request) {
 		r.Form, r.PostForm = url.Values{"origin": {"https://evil.test"}}, url.Values{}
 		r.RemoteAddr = "[::1]:80"
 		*r = *r.WithContext(context.WithValue(context.Background(), ctxKey{}, "v"))
+	case 9: // (the request itself is plain; the WRITER of this exchange belongs to an outer layer that appends to the header lists: serveWith)
 	case 8: // chunked upload over HTTP/1.1 with a trailer announced
 		r.TransferEncoding, r.ContentLength = []string{"chunked"}, -1
 		r.Body = io.NopCloser(strings.NewReader("data"))
@@ -205,6 +206,13 @@ type recWriter struct {
 	snapFP   string      // fingerprint of the header map at first WriteHeader
 	snapped  bool
 	keepSnap bool
+	// outerAppends: an outer layer (a compressing writer, say) appends a value to
+	// every header list present when the response head is written - after the
+	// harness has taken its snapshot, so the recorded response is the same with
+	// and without it. http.Header.Add on a list the middleware installed is what
+	// every such layer does; it is harmless unless the installed slice has spare
+	// capacity shared with somebody else.
+	outerAppends bool
 }
 
 func newRec(preset []HV) *recWriter {
@@ -230,6 +238,11 @@ func (w *recWriter) WriteHeader(s int) {
 	if w.status == 0 {
 		w.status = s
 		w.snap()
+		if w.outerAppends {
+			for k := range w.h {
+				w.h.Add(k, "appended-by-outer-layer")
+			}
+		}
 	}
 }
 func (w *recWriter) Write(b []byte) (int, error) {
@@ -240,6 +253,17 @@ func (w *recWriter) Write(b []byte) (int, error) {
 	}
 	w.body = append(w.body, b...)
 	return len(b), nil
+}
+
+// extraWH counts WriteHeader calls beyond the first.
+func (w *recWriter) extraWH() int {
+	n := 0
+	for _, c := range w.calls {
+		if c.Kind == "writeheader" {
+			n++
+		}
+	}
+	return max(0, n-1)
 }
 
 func (w *recWriter) snap() {
@@ -377,6 +401,7 @@ type Resp struct {
 	Body    string
 	Handler int    // invocations of the wrapped handler
 	Panic   string // non-empty if the call panicked
+	WH      int    // WriteHeader calls beyond the first (http.ResponseWriter allows one; which status a second call leaves depends on the writer)
 }
 
 func (r Resp) String() string {
@@ -384,14 +409,25 @@ func (r Resp) String() string {
 	if r.Panic != "" {
 		s += " PANIC=" + r.Panic
 	}
+	if r.WH > 0 {
+		s += fmt.Sprintf(" superfluous-WriteHeader-calls=%d", r.WH)
+	}
 	return s
 }
 
 // constHandler is the constant wrapped handler used by differential checks.
-type constHandler struct{ n *int }
+type constHandler struct {
+	n     *int
+	quiet *bool // the handler sets a header of its own and returns without writing: net/http serialises the head only after the whole chain has returned
+}
 
 func (h constHandler) ServeHTTP(w http.ResponseWriter, _ *http.Request) {
 	*h.n++
+	if h.quiet != nil && *h.quiet {
+		w.Header().Add("Vary", "Accept-Encoding")
+		w.Header().Set("X-Handler", "quiet")
+		return
+	}
 	w.WriteHeader(200)
 	w.Write([]byte("ok"))
 }
@@ -405,23 +441,41 @@ func serveWith(hh http.Handler, q Req, preset []HV, invoked *int) (resp Resp) {
 		}
 	}()
 	*invoked = 0
+	w.outerAppends = q.Shape%nShapes == 9
 	hh.ServeHTTP(w, q.build())
 	fp := w.snapFP
 	if !w.snapped {
 		fp = headerFP(w.h)
 	}
-	return Resp{Status: w.status, Headers: fp, Body: string(w.body), Handler: *invoked}
+	return Resp{Status: w.status, Headers: fp, Body: string(w.body), Handler: *invoked, WH: w.extraWH()}
 }
 
 // mwServer bundles a middleware-wrapped constant handler.
 type mwServer struct {
 	h       http.Handler
 	invoked int
+	quiet   bool
+}
+
+// doLazy serves q with a handler that writes nothing and returns the live
+// writer: its header map is what the server will serialise LATER, when the
+// chain has returned - possibly after other requests have been served.
+func (s *mwServer) doLazy(q Req) (w *recWriter, pan string) {
+	w = newRec(nil)
+	s.quiet = true
+	defer func() {
+		s.quiet = false
+		if p := recover(); p != nil {
+			pan = fmt.Sprint(p)
+		}
+	}()
+	s.h.ServeHTTP(w, q.build())
+	return w, ""
 }
 
 func newServer(wrap func(http.Handler) http.Handler) *mwServer {
 	s := &mwServer{}
-	s.h = wrap(constHandler{&s.invoked})
+	s.h = wrap(constHandler{&s.invoked, &s.quiet})
 	return s
 }
 func (s *mwServer) do(q Req) Resp               { return serveWith(s.h, q, nil, &s.invoked) }
@@ -466,7 +520,7 @@ var noiseVocab = []HV{
 	{"Access-Control-Allow-Origin", []string{"*"}}, // a response header name sent as a request header
 	{"Vary", []string{"Origin"}},
 	// not a header: what else the *http.Request carries (Req.Shape)
-	{":shape", []string{"1", "2", "3", "4", "5", "6", "7", "8"}},
+	{":shape", []string{"1", "2", "3", "4", "5", "6", "7", "8", "9"}},
 	// not a header: the request's Host (r.Host and URL), e.g. equal to the Origin's host
 	{":host", []string{"example.com", "foo.example.com", "localhost", "example.com:443", "127.0.0.1:9090"}},
 }
